@@ -2,7 +2,9 @@
      ( 0 handlerCalls middlewareCalls clientSawHttp liveAfter )  clear text to a TLS server: nothing invoked, no HTTP
         response in clear text, the connection released;
      ( 1 encrypted tlsExchange plainExchange )  a request over a completed handshake is routed and answered exactly
-        as over plain TCP (handler log with method, path, raw target, headers, declared length, body; status; body). *)
+        as over plain TCP (handler log with method, path, raw target, headers, declared length, body; status; body);
+     ( 2 encrypted tlsLog plainLog )  the same for a one-shot client whose last handshake message, request and close reach
+        the server in a single read. *)
 From Coq Require Import String List Ascii ZArith Bool.
 From QH Require Import Bytes Value.
 Import ListNotations.
@@ -26,5 +28,6 @@ Definition chk_C20 (c o : value) : bool :=
   match o with
   | VL [VI 0; VI hc; VI mc; VI http; VI live] => (hc =? 0) && (mc =? 0) && (http =? 0) && (live =? 0)
   | VL [VI 1; VI enc; a; b] => as_bool enc && veqb a b
+  | VL [VI 2; VI enc; a; b] => as_bool enc && veqb a b
   | _ => false
   end.
